@@ -133,8 +133,33 @@ pub fn run_validate_json<T: SwiftMessageBody + serde::Serialize + serde::de::Des
             let before = m.clone();
             let all: Vec<String> = m.validate_network_rules(false).iter().map(|e| e.error_code().to_string()).collect();
             let first: Vec<String> = m.validate_network_rules(true).iter().map(|e| e.error_code().to_string()).collect();
-            let again: Vec<String> = m.validate_network_rules(false).iter().map(|e| e.error_code().to_string()).collect();
-            json!({"ok": true, "codes": all, "first": first, "again": again, "unchanged": before == m, "mt": m.to_mt_string()})
+            // re-validation: repeated, because an order that depends on a randomly seeded hasher shows only sometimes
+            let reference = format!("{:?}", m.validate_network_rules(false));
+            let mut again: Vec<String> = all.clone();
+            let mut again_detail = Value::Null;
+            for _ in 0..48 {
+                let errs = m.validate_network_rules(false);
+                let codes: Vec<String> = errs.iter().map(|e| e.error_code().to_string()).collect();
+                let dbg = format!("{:?}", errs);
+                if codes != all {
+                    again = codes;
+                    break;
+                }
+                if dbg != reference && again_detail.is_null() {
+                    again_detail = json!([reference.clone(), dbg]);
+                }
+            }
+            let mut first_unstable = Value::Null;
+            for _ in 0..48 {
+                let f: Vec<String> = m.validate_network_rules(true).iter().map(|e| e.error_code().to_string()).collect();
+                let a: Vec<String> = m.validate_network_rules(false).iter().map(|e| e.error_code().to_string()).collect();
+                if f.is_empty() != a.is_empty() || f.len() > a.len() || f[..] != a[..f.len()] {
+                    first_unstable = json!({"first": f, "full": a});
+                    break;
+                }
+            }
+            json!({"ok": true, "codes": all, "first": first, "again": again, "again_detail": again_detail, "first_unstable": first_unstable,
+                   "unchanged": before == m, "mt": m.to_mt_string()})
         }
         Err(e) => json!({"ok": false, "de_error": e.to_string()}),
     }
@@ -264,6 +289,22 @@ pub fn run(item: &Value) -> Value {
                     }
                     Err(e) => json!({"ok": false, "display": e.to_string()}),
                 },
+                "UserHeader" => match swift_mt_message::headers::UserHeader::parse(text) {
+                    Ok(h) => {
+                        let t = h.to_string();
+                        let eq = swift_mt_message::headers::UserHeader::parse(&t).map(|h2| h2 == h).unwrap_or(false);
+                        json!({"ok": true, "text": t, "reparse_equal": eq})
+                    }
+                    Err(e) => json!({"ok": false, "display": e.to_string()}),
+                },
+                "Trailer" => match swift_mt_message::headers::Trailer::parse(text) {
+                    Ok(h) => {
+                        let t = h.to_string();
+                        let eq = swift_mt_message::headers::Trailer::parse(&t).map(|h2| h2 == h).unwrap_or(false);
+                        json!({"ok": true, "text": t, "reparse_equal": eq})
+                    }
+                    Err(e) => json!({"ok": false, "display": e.to_string()}),
+                },
                 _ => json!({"error": "unknown header type"}),
             }
         }
@@ -298,6 +339,22 @@ pub fn run(item: &Value) -> Value {
         "classify_json" => crate::api_gen::classify_json(ty, &item["json"]).unwrap_or(json!({"error": "unknown message type"})),
         "validate_json" => crate::api_gen::validate_json(ty, &item["json"]).unwrap_or(json!({"error": "unknown message type"})),
         "full" => crate::api_gen::full(ty, item["text"].as_str().unwrap_or("")).unwrap_or(json!({"error": "unknown message type"})),
+        "plugin_validate" | "plugin_parse" | "plugin_publish" => crate::plugin::run_plugin(op, item),
+        "auto" => {
+            // auto-detecting parse + the wrapper's validate(), for comparison with the typed API and the plugins
+            let text = item["text"].as_str().unwrap_or("");
+            match SwiftParser::parse_auto(text) {
+                Ok(p) => {
+                    let v = p.validate();
+                    json!({"ok": true, "message_type": p.message_type(), "is_valid": v.is_valid, "n_errors": v.errors.len()})
+                }
+                Err(e) => {
+                    let mut v = err_json(&e);
+                    v["ok"] = json!(false);
+                    v
+                }
+            }
+        }
         "types" => json!({"fields": crate::api_gen::FIELD_TYPES, "messages": crate::api_gen::MESSAGE_TYPES}),
         _ => json!({"error": format!("unknown op {}", op)}),
     }
